@@ -24,6 +24,7 @@ PairsOf(P) == LET h == HeadsOfGraph(P)
 Triples == UNION {{<<P, p[1], p[2]>> : p \in PairsOf(P)} : P \in Graphs2}
 \* branches: a graph, a tip, and the other tips s that make (t, s) a covering pair
 Branches == UNION {{<<P, p[1]>> : p \in {q \in PairsOf(P) : q[1] # Null}} : P \in Graphs2}
+TipsOf(P) == {p[1] : p \in PairsOf(P)} \ {Null}
 OthersOf(P, t) == {p[2] : p \in {q \in PairsOf(P) : q[1] = t}}
 Sample(S) == LET all == SetToSeq(S) IN {all[k] : k \in {j \in DOMAIN all : (j + Offset) % Stride = 0}}
 B2N(b) == IF b THEN 1 ELSE 0
